@@ -162,6 +162,7 @@ func firstLine(s string) string {
 
 func (e *Engine) explore(name string, fn *ssa.Function, cfg Config) *HarnessRun {
 	hr := newHarnessRun(e, name, fn, cfg)
+	hashInjective = cfg.HashInj
 	st := newState(e.baseHeap)
 	g := &G{id: 0, status: gRunnable}
 	w0 := &Worker{e: e, hr: hr, fnSteps: map[*ssa.Function]int64{}}
